@@ -32,6 +32,9 @@ pub struct Case {
     pub script: Vec<(bool, u8)>,
     /// io::Read source only: positions (fractions of the stream) at which the source reports `Interrupted` first
     pub interrupts: Vec<u16>,
+    /// the capture ends inside one more transmission: (file, cut mode 0 = right after the start sequence /
+    /// 1 = inside the start sequence / 2 = anywhere, fraction)
+    pub tail_cut: Option<(CFile, u8, u16)>,
 }
 
 #[derive(Debug, Clone)]
@@ -49,6 +52,9 @@ pub struct Input {
     /// io::Read source only: fractions (x/65536 of the stream length) at which the source first reports
     /// `ErrorKind::Interrupted` - a condition every std::io::Read consumer has to retry
     pub interrupts: Vec<u16>,
+    /// bytes after the last noise string: a proper, non-empty prefix of one more frame (the capture ends
+    /// inside a transmission), or empty
+    pub tail_cut: Vec<u8>,
 }
 
 /// What one call produced, in owned form.
@@ -324,12 +330,29 @@ pub fn eval_input(i: &Input, obs: &mut Obs) -> Result<(), Fail> {
     }
     let tail = i.noises.last().unwrap();
     stream.extend_from_slice(tail);
-    if !tail.is_empty() {
-        exp.push(Expect::TailEof(tail.len()));
+    stream.extend_from_slice(&i.tail_cut);
+    if i.tail_cut.len() >= 8 {
+        // the capture ends inside a transmission: its start sequence ends the noise (reported as such),
+        // and the end of input discards exactly the bytes of the unfinished transmission
+        if i.tail_cut[..8] != crate::refmodel::transport::START {
+            obs.class("precondition-miss:tail-cut");
+            return Ok(());
+        }
+        if !tail.is_empty() {
+            exp.push(Expect::Discard(tail.len()));
+        }
+        exp.push(Expect::TailEof(i.tail_cut.len()));
+        obs.class(if i.tail_cut.len() == 8 { "tail:cut-right-after-start-sequence" } else { "tail:cut-inside-transmission" });
+    } else if tail.len() + i.tail_cut.len() > 0 {
+        // less than a start sequence: just more noise
+        if !i.tail_cut.is_empty() {
+            obs.class("tail:cut-inside-start-sequence");
+        }
+        exp.push(Expect::TailEof(tail.len() + i.tail_cut.len()));
     }
     exp.push(Expect::End);
 
-    let maxlen = i.files.iter().map(|f| f.0.len()).max().unwrap_or(0);
+    let maxlen = i.files.iter().map(|f| f.0.len()).max().unwrap_or(0).max(i.tail_cut.len());
     match i.buffer {
         0 if maxlen <= 8192 => match i.source {
             0 => run_script(SmlReader::from_slice(&stream), i, &files, &exp, "SmlReader::from_slice (default buffer)"),
@@ -404,7 +427,7 @@ pub fn eval_input(i: &Input, obs: &mut Obs) -> Result<(), Fail> {
 
 impl Prop for C10 {
     const ID: &'static str = "C10";
-    const RULE: &'static str = "k in 0..5 (thorough 0..9) G4 files, each framed by encode or encode_streaming, separated and surrounded by G3 noise (possibly empty; suffix classes: 0x1b runs, partial start sequences, end look-alikes), read through SmlReader over {slice, iterator, io::Read (a one-byte-at-a-time reader that also reports ErrorKind::Interrupted at 0..3 positions, which std::io consumers must retry)} with {default 8 KiB, ArrayBuf<N >= max|F|>, Vec} buffers under a per-call script choosing read vs next, blocking vs non-blocking API (read_nb / next_nb) and the target type (DecodedBytes, File, Parser). One payload in ten has a flipped bit (then File must be a parse error and Parser must yield the events before the rejection, then an error). Oracle: constructed expectation - for each i DiscardedBytes(|g_i|) if the noise is non-empty, then file i in the requested representation (bytes == payload, File == independent reading R3, Parser events == R3 events); after the last frame IoErr(Eof, |g_k|) once if |g_k| > 0, then next -> None / read -> IoErr(Eof, 0) on three further calls; and transport::decode + complete::parse composed by hand give the same. Non-trivial: >= 2 files with at least one non-empty noise, or >= 2 different target types in one script. Distinct = distinct inputs.";
+    const RULE: &'static str = "k in 0..5 (thorough 0..9) G4 files, each framed by encode or encode_streaming, separated and surrounded by G3 noise (possibly empty; suffix classes: 0x1b runs, partial start sequences, end look-alikes), read through SmlReader over {slice, iterator, io::Read (a one-byte-at-a-time reader that also reports ErrorKind::Interrupted at 0..3 positions, which std::io consumers must retry)} with {default 8 KiB, ArrayBuf<N >= max|F|>, Vec} buffers under a per-call script choosing read vs next, blocking vs non-blocking API (read_nb / next_nb) and the target type (DecodedBytes, File, Parser). One payload in ten has a flipped bit (then File must be a parse error and Parser must yield the events before the rejection, then an error). Oracle: constructed expectation - for each i DiscardedBytes(|g_i|) if the noise is non-empty, then file i in the requested representation (bytes == payload, File == independent reading R3, Parser events == R3 events); after the last frame IoErr(Eof, |g_k|) once if |g_k| > 0, then next -> None / read -> IoErr(Eof, 0) on three further calls; in one case out of four the capture ends inside one more transmission (cut right after its start sequence, inside it, or anywhere): then DiscardedBytes(|g_k|) and IoErr(Eof, number of bytes of the unfinished transmission) are expected; and transport::decode + complete::parse composed by hand give the same. Non-trivial: >= 2 files with at least one non-empty noise, or >= 2 different target types in one script. Distinct = distinct inputs.";
     type Case = Case;
     type Input = Input;
 
@@ -415,8 +438,18 @@ impl Prop for C10 {
     fn strategy(tier: Tier) -> BoxedStrategy<Case> {
         let maxk = tier.pick(5usize, 9);
         (0..maxk)
-            .prop_flat_map(|k| (vec((cfile(false), any::<bool>(), prop::option::weighted(0.1, any::<u16>())), k), vec(prop_oneof![2 => Just(Noise { toks: vec![], suffix: crate::gen::stream::NSuffix::None }), 3 => noise(300, true)], k + 1), 0u8..3, 0u8..3, vec((any::<bool>(), 0u8..6), 1..8), vec(any::<u16>(), 0..4)))
-            .prop_map(|(files, noises, source, buffer, script, interrupts)| Case { files, noises, source, buffer, script, interrupts })
+            .prop_flat_map(|k| {
+                (
+                    vec((cfile(false), any::<bool>(), prop::option::weighted(0.1, any::<u16>())), k),
+                    vec(prop_oneof![2 => Just(Noise { toks: vec![], suffix: crate::gen::stream::NSuffix::None }), 3 => noise(300, true)], k + 1),
+                    0u8..3,
+                    0u8..3,
+                    vec((any::<bool>(), 0u8..6), 1..8),
+                    vec(any::<u16>(), 0..4),
+                    prop::option::weighted(0.25, (crate::gen::smlfile::cfile_typical(), 0u8..3, any::<u16>())),
+                )
+            })
+            .prop_map(|(files, noises, source, buffer, script, interrupts, tail_cut)| Case { files, noises, source, buffer, script, interrupts, tail_cut })
             .boxed()
     }
 
@@ -439,6 +472,18 @@ impl Prop for C10 {
             buffer: c.buffer,
             script: c.script.clone(),
             interrupts: if c.source == 2 { c.interrupts.clone() } else { vec![] },
+            tail_cut: match &c.tail_cut {
+                None => vec![],
+                Some((f, mode, frac)) => {
+                    let frame = crate::refmodel::transport::ref_frame(&write(f).bytes);
+                    let k = match mode {
+                        0 => 8,
+                        1 => 1 + crate::engine::caps::pick(*frac, 7),
+                        _ => 1 + crate::engine::caps::pick(*frac, frame.len() - 1),
+                    };
+                    frame[..k].to_vec()
+                }
+            },
         }
     }
 
@@ -466,6 +511,7 @@ impl Prop for C10 {
         for x in &i.interrupts {
             kv.put_u("interrupt_at", *x as u64);
         }
+        kv.put_b("tail_cut", &i.tail_cut);
         for (n, t) in &i.script {
             kv.put("call", format!("{}:{}", if *n { "next" } else { "read" }, t));
         }
@@ -491,6 +537,7 @@ impl Prop for C10 {
         for x in kv.all("interrupt_at") {
             interrupts.push(x.parse::<u16>().map_err(|e| e.to_string())?);
         }
-        Ok(Input { files, noises, source: kv.get_u("source")? as u8 % 3, buffer: kv.get_u("buffer")? as u8 % 3, script, interrupts })
+        let tail_cut = if kv.all("tail_cut").next().is_none() { vec![] } else { kv.get_b("tail_cut")? };
+        Ok(Input { files, noises, source: kv.get_u("source")? as u8 % 3, buffer: kv.get_u("buffer")? as u8 % 3, script, interrupts, tail_cut })
     }
 }
